@@ -157,6 +157,41 @@ theorem inc_idem (t ti : Table) (n : Nat) (hr : t.Rect n) (conds : List (String 
     exact hsat
   rw [hall, gatherRows_range hr']
 
+/-- a filter on a column that is not there: `inc` raises `KeyError` (the conditions before it having
+been applied), whatever the rows -/
+theorem inc_missing_key (t : Table) (n : Nat) (hr : t.Rect n) (hne : t ≠ []) (pre post : List (String × Cond))
+    (k : String) (c : Cond) (hpre : ∀ kc ∈ pre, t.has kc.1 = true) (hk : t.has k = false) :
+    t.inc Option.none (pre ++ (k, c) :: post) = .error .key := by
+  have hsplit : ∀ (res : Table) (a b : List (String × Cond)),
+      res.incSteps (a ++ b) = match res.incSteps a with | .error e => .error e | .ok r => r.incSteps b := by
+    intro res a
+    induction a generalizing res with
+    | nil => intro b; rfl
+    | cons x xs ih =>
+      intro b
+      simp only [List.cons_append, incSteps]
+      cases res.incStep x with
+      | error e => rfl
+      | ok r => exact ih r b
+  have hg := incSteps_gather hne pre hpre (List.range n)
+  rw [gatherRows_range hr] at hg
+  have hcond : ((Option.none : Option (Table → Nat → Except Err Bool)).isNone &&
+      (pre ++ (k, c) :: post).isEmpty) = false := by
+    cases pre <;> simp
+  unfold inc
+  rw [hcond]
+  simp only [Bool.false_eq_true, if_false]
+  rw [hsplit, hg]
+  simp only [incSteps, incStep, getColE]
+  have : (t.gatherRows ((List.range n).filter (t.sat pre))).col? k = Option.none := by
+    rw [col?_gatherRows]
+    cases hc : t.col? k with
+    | none => rfl
+    | some col =>
+      have := (has_iff_col? t k).2 ⟨col, hc⟩
+      rw [hk] at this; cases this
+  rw [this]
+
 /-! ### a single callable -/
 
 /-- `d.inc(f)` for a callable that is defined on every row: exactly the rows where it is true -/
